@@ -7,7 +7,7 @@ a subset of the documented set.  Each violation is reported with its witness pat
 """
 from sa.values import *
 from sa.lin import Lin
-from .common import world, pmap, short, configs_for
+from .common import as_update, world, pmap, short, configs_for
 
 KEY_LOADER = {"UnexpectedDER", "MalformedPointError", "UnknownCurveError"}
 SIG = {"MalformedSignature", "UnexpectedDER"}
@@ -161,9 +161,10 @@ def progress_rule(chk, W):
                         ok &= bool(vals) and all(isinstance(vv, VInt) and ss.proves_ge(vv.lin - 1) for vv, ss in vals)
                     why = "the buffer is re-sliced by an amount not proven >= 1 (%d state(s))" % len(sts)
             elif isinstance(loop.test, ast.Constant) and loop.test.value is True:
-                incs = [s_ for s_ in loop.body if isinstance(s_, ast.AugAssign) and isinstance(s_.op, ast.Add) and isinstance(s_.value, ast.Constant) and isinstance(s_.value.value, int) and s_.value.value >= 1 and isinstance(s_.target, ast.Name)]
+                incs = [s_ for s_ in loop.body if isinstance(s_, (ast.AugAssign, ast.Assign)) and as_update(s_) is not None and as_update(s_)[1] is ast.Add and isinstance(as_update(s_)[2], ast.Constant)
+                        and isinstance(as_update(s_)[2].value, int) and as_update(s_)[2].value >= 1 and isinstance(as_update(s_)[0], ast.Name)]
                 if len(incs) == 1:
-                    c = incs[0].target.id
+                    c = as_update(incs[0])[0].id
                     first = loop.body[0]
                     guard = isinstance(first, ast.If) and isinstance(first.test, ast.Compare) and norm_text(first.test.left) == c and isinstance(first.test.ops[0], (ast.GtE, ast.Gt, ast.Eq)) \
                         and norm_text(first.test.comparators[0]).startswith("len(") and isinstance(first.body[-1], (ast.Raise, ast.Break, ast.Return))
